@@ -15,7 +15,7 @@ from collections import Counter
 
 import numpy as np
 
-from .. import gen
+from .. import gen, geom
 from ..core import Skip, signature
 
 ID = 'C20'
@@ -317,6 +317,17 @@ def run_unit(unit, rng, ctx):
                 same_twin = (v.n_solo_jumps, v.n_coll_jumps, v.coll_jumps, v.max_steps, v.max_dist) == (r.n_solo_jumps, r.n_coll_jumps, r.coll_jumps, r.max_steps, r.max_dist) and v.jumps is obj
             else:
                 same_twin = equal(v, r)
+            if type(v).__name__ == 'Collective' and not kwargs.get('max_dist', 1.0) <= 1e-6:
+                # reference that shares no code, and therefore no process-wide state, with the library: the loop
+                # model of "close in time and space" on this object's own jump table and this template's sites
+                from . import c12
+
+                rows_ = [tuple(int(x) for x in r_) for r_ in obj.data[c12.COLS].to_numpy()]
+                dsite_ = geom.min_image(templates[k].sys.matrix, templates[k].sys.site_frac, templates[k].sys.site_frac)
+                cut_ = float(v.max_dist)
+                if np.min(np.abs(dsite_[np.triu_indices(len(dsite_), 1)] - cut_)) > 1e-6:
+                    c12.check_collective(v, rows_, templates[k].sys, int(v.max_steps), cut_, ctx, f'cached {kind}#{k}.collective{kwargs} (checked against the loop model)', {'history': hist[-15:]})
+                    ctx.count('collective_results_checked_against_the_loop_model')
             ctx.check(same_obj, f'cached {kind}.{name}{args}{kwargs} returned {str(v)[:80]!r}, an uncached recomputation on the same object gives {str(w)[:80]!r}', {'history': hist[-15:]})
             ctx.check(same_twin, f'cached {kind}.{name}{args}{kwargs} returned a value that belongs to other data: {str(v)[:80]!r} vs pristine twin {str(r)[:80]!r}', {'history': hist[-15:]})
 
